@@ -78,10 +78,12 @@ def scanNextG (clear : Bool) (w : Expr) : List Pair → Ctx → Except PErr (Opt
     | (.ok true, c1) => (.ok (some kv, rest), c1)
     | (.ok false, c1) => scanNextG clear w rest c1
 
-/-- the type switch at the end of `processProjection`: `[]string`, `[]int64`, `[]float64` and
-    `[]Expression` are "not support" -/
+/-- the type switch at the end of `processProjection`: every Go type the evaluators produce for a select
+    field is accepted — since patch 06 also the typed lists `[]string`, `[]int64`, `[]float64` of `split()`,
+    `list()`, `int_list()`, `float_list()`, which batch iteration returns as they are; only `[]Expression`
+    (the value of a bare list literal, which cannot be a select field) is "not support" -/
 def rowSupported : Value → Bool
-  | .strList _ | .intList _ | .floatList _ | .exprList _ => false
+  | .exprList _ => false
   | _ => true
 
 /-- `processProjection`: per field, the cache BY FIELD NAME — if the field is the first of its name
